@@ -89,6 +89,7 @@ struct Runner {
     QString bindId, legacyQueryId, legacySetId, probeId, saslPayload, sasl2Payload;
     QStringList secrets;
     bool hang = false;
+    int hangs = 0;   // executions ended by the hang detector (0 on a conforming implementation)
     bool lastHang = false;
     QMap<QString, qint64> usPerKind;
     QElapsedTimer stepClock;
@@ -236,6 +237,9 @@ struct Runner {
                                            { "peerGot", QString::fromLatin1(peer.received.left(24).toHex()) }, { "peerOpen", peer.isOpen() } };
         }
         lastHang = hang;
+        if (hang) {
+            ++hangs;
+        }
         hang = false;
         ctx.emit_(ev);
     }
@@ -527,8 +531,15 @@ QXV_DRIVER(stream)
     Runner r(ctx);
     int n = 0;
     const auto behs = ctx.behaviours();
+    // A broken variant of the implementation can make most executions end in the hang detector
+    // (4 s each); the executions recorded up to the budget are enough to report it.
+    const int maxHangs = ctx.optInt("maxhangs", 60);
     for (const auto &bv : behs) {
         r.run(QString("s%1").arg(++n), bv.toObject());
+        if (r.hangs >= maxHangs) {
+            fprintf(stderr, "qxv stream: hang budget (%d) used up after %d of %d behaviours; the rest is not replayed\n", maxHangs, n, int(behs.size()));
+            break;
+        }
     }
     if (ctx.opt.contains("timing")) {
         for (auto it = r.usPerKind.begin(); it != r.usPerKind.end(); ++it) {
